@@ -1,6 +1,7 @@
 """C20 — unmerge removes exactly what it owns and never base directories (structural clauses)."""
 import ast
 
+from ..core import generic as G
 from ..core import astutil as A
 from ..core import match as M
 from ..core.cfg import cfg_of
@@ -141,6 +142,10 @@ def run(ctx):
     ctx.check("R3", prot, bool(reg), "registered", "BaseSystemUnmergeProtection is among the default triggers")
     ctx.floor("R3", 9)
 
+    # ---- R4 an engine works from its own package's tables: nothing process-wide is written ------------------------------
+    G.no_shared_default_writes(ctx, "R4", ["src/pkgcore/merge/engine.py", "src/pkgcore/merge/triggers.py", "src/pkgcore/fs/ops.py"])
+    G.pure(ctx, "R4", [("pkgcore.merge.engine", q, (), "the class-level cset/hook tables are templates every engine copies") for q in ("MergeEngine.install", "MergeEngine.uninstall", "MergeEngine.replace")])
+    ctx.floor("R4", 4)
 
 MUTANTS = [
     {"name": "unmerge-filtered-kinds", "file": "src/pkgcore/fs/ops.py", "old": "    for x in iterate(cset.iterdirs(invert=True)):\n        callback(x)\n        unlink_if_exists(x.location)", "new": "    for x in iterate(e for e in cset if e.is_reg or e.is_sym):\n        callback(x)\n        unlink_if_exists(x.location)", "rule": "R1"},
